@@ -79,7 +79,7 @@ var c08Sources = map[string]string{
 // c08SafeShapes: facts about a map TYPE that make one kind of loop over any value of it order-insensitive wherever the
 // loop stands. key = <type>|<classifier's objection with the loop variables written ·k / ·v>.
 var c08SafeShapes = map[string]string{
-	"flows/definition.flowAssets.cache|return carries iteration data: ·v": "the flow cache is searched for a name: flow names are unique (case-insensitively) within an asset source, the same contract the source.FlowByName fallback relies on, so at most one entry matches whatever the order — a fact about the field, wherever the search loop stands",
+	"flows/definition.flowAssets.cache|return carries iteration data: ·v":                      "the flow cache is searched for a name: flow names are unique (case-insensitively) within an asset source, the same contract the source.FlowByName fallback relies on, so at most one entry matches whatever the order — a fact about the field, wherever the search loop stands",
 	"flows.FieldValues|map store keyed by a non-injective function of the key: ·v.field.Key()": "FieldValues is keyed by field.Key() (FieldValues.Set is its only writer), so v.field.Key() is the range key itself: a keyed store",
 }
 
